@@ -4,7 +4,7 @@
    down with each documented delimiter form, the documented restriction on
    arguments, and the keymap it denotes.  Nothing here looks at options.go. *)
 From Coq Require Import String Ascii.
-From Fzf Require Import Prelude.
+From Fzf Require Import Prelude RuneSpec.
 Open Scope Z_scope.
 
 (* string literal -> bytes *)
@@ -33,7 +33,7 @@ Definition split_on (sep : Z) (s : str) : list str := split_aux sep [] s.
 (* ---------------------------------------------------------------- keys *)
 
 Inductive key :=
-| KRune (r : Z)          (* a printable character *)
+| KRune (r : Z)          (* a character (Unicode code point) *)
 | KCtrl (i : Z)          (* ctrl-a .. ctrl-z as 0..25; tab = ctrl-i, enter = ctrl-m *)
 | KNamed (name : str)    (* any other named key or event, canonical name *)
 | KF (n : Z)             (* f1 .. f12 *)
@@ -95,22 +95,31 @@ Definition s_alt : str := Eval vm_compute in b "alt-".
 Definition s_ctrl : str := Eval vm_compute in b "ctrl-".
 Definition s_ctrl_alt : str := Eval vm_compute in b "ctrl-alt-".
 
-(* one key name (ASCII; no comma handling here) -> key.  Names are case-insensitive,
-   the character of alt-X / ctrl-alt-X / a plain character keeps its case. *)
+(* a key name that is one character, or alt- followed by one character.  "Character" is a
+   character of the (UTF-8) spelling, not a byte: alt-é names ALT + U+00E9 *)
+Definition rune_key (tok l : str) : option key :=
+  match utf8_runes tok with
+  | [r] => Some (KRune r)
+  | [_; _; _; _; r] => if has_prefix s_alt l then Some (KAlt r) else None
+  | _ => None
+  end.
+
+(* one key name (no comma handling here) -> key.  Names are case-insensitive (ASCII letters),
+   the character of alt-X / ctrl-alt-X / a plain character keeps its case.
+   Outside the domain: names containing U+0130 or U+212A (Go's ToLower maps them to the ASCII
+   letters i and k, so e.g. U+212A inside "backspace" is accepted by fzf). *)
 Definition key_of_token (tok : str) : option key :=
   let l := to_lower tok in
   match assoc_str l named_keys with
   | Some k => Some k
   | None =>
       match tok with
-      | [c] => if c <? 128 then Some (KRune c) else None
-      | [_; d] => if has_prefix s_f l && (49 <=? d) && (d <=? 57) then Some (KF (d - 48)) else None
-      | [_; _; _; _; r] => if has_prefix s_alt l && (r <? 128) then Some (KAlt r) else None
+      | [_; d] => if has_prefix s_f l && (49 <=? d) && (d <=? 57) then Some (KF (d - 48)) else rune_key tok l
       | [_; _; _; _; _; c] =>
-          if has_prefix s_ctrl l && is_lower (lower c) then Some (KCtrl (lower c - 97)) else None
+          if has_prefix s_ctrl l && is_lower (lower c) then Some (KCtrl (lower c - 97)) else rune_key tok l
       | [_; _; _; _; _; _; _; _; _; c] =>
-          if has_prefix s_ctrl_alt l && is_lower (lower c) then Some (KCtrlAlt c) else None
-      | _ => None
+          if has_prefix s_ctrl_alt l && is_lower (lower c) then Some (KCtrlAlt c) else rune_key tok l
+      | _ => rune_key tok l
       end
   end.
 
@@ -287,6 +296,10 @@ Definition act_denote (a : act) : list action :=
 Definition acts_denote (l : list act) : list action := flat_map act_denote l.
 
 Definition key_denote (k : str) : key := match key_of_token k with Some x => x | None => KRune 0 end.
+
+(* the SET of keys named by a comma-separated list of key names (--expect, unbind(...), ...) *)
+Definition keys_denote (ks : list str) : list key :=
+  fold_left (fun acc k => let x := key_denote k in if existsb (key_eqb x) acc then acc else acc ++ [x]) ks [].
 
 (* every listed key receives exactly the listed actions, in order; later pairs override earlier ones *)
 Definition pair_denote (m : keymap) (p : bpair) : keymap :=
